@@ -53,6 +53,8 @@ def check(run):
         enc = rlngen.witness_bytes(s, lim, mid, path, idx, x, e)
         seqs.append([f"de_witness {enc.hex()}"])
         seqs.append([f"json_rt {enc.hex()}"])
+        seqs.append([f"rln_wit_bigint {enc.hex()}"])           # the RLN-level exports of the same witness (JSON entry points)
+        seqs.append([f"rln_wit_json {enc.hex()}"])
         r = rng.random()
         if r < 0.5:
             cut = rng.choice([0, 1, 31, 32, 95, 96, 103, 104, len(enc) - 65, len(enc) - 64, len(enc) - 1])
@@ -80,7 +82,11 @@ def check(run):
         seqs.append([f"prep_verify {bytes(rng.getrandbits(8) for _ in range(288)).hex()} {rlngen.hx(sig)}"])
         seqs.append(["id_pair_de " + b"".join(le(v, 32) for v in vals[:2]).hex()])
         seqs.append(["id_tuple_de " + b"".join(le(v, 32) for v in vals[:4]).hex()])
-    run.rules.append("each codec in both directions against an encoder/decoder written from the documented layouts: field elements (boundary + random), vectors of length 0..n, usize lists with 2^32/2^63/2^64-1 entries, witnesses with path lengths 0..21 and boundary limits/ids, with missing / trailing bytes and inconsistent length prefixes, proof values, requests, identity tuples (seeded and unseeded, RLN and FFI entry points, checked through the relations their fields satisfy in the documented order); distinct = distinct op line")
+    run.rules.append("each codec in both directions against an encoder/decoder written from the documented layouts: field elements (boundary + random), vectors of length 0..n and long generated vectors (65535 / 65536 / 65537 / 70001 elements; thorough up to 2^20+1), usize lists with 2^32/2^63/2^64-1 entries, witnesses with path lengths 0..21 and boundary limits/ids, with missing / trailing bytes and inconsistent length prefixes, proof values, requests, identity tuples (seeded and unseeded, RLN and FFI entry points, checked through the relations their fields satisfy in the documented order); distinct = distinct op line")
+    # vectors longer than any internal chunking threshold, with lengths that are NOT multiples of small powers of two
+    for n in ([0, 1, 65535, 65536, 65537, 70001] if run.tier == "quick" else [0, 1, 2, 1000, 16383, 16384, 16385, 65535, 65536, 65537, 70001, 131071, 131073, 262147, 1048577]):
+        seqs.append([f"bigvec fr {hex(n)} {hex(rng.getrandbits(40))}"])
+        seqs.append([f"bigvec u8 {hex(n)} {hex(rng.getrandbits(8))}"])
     from lib import gen as _gen
     def _wit_ok(line):
         # stay inside this stream's domain: a witness line with more direction bytes than path elements makes
